@@ -132,6 +132,9 @@ func main() {
 	for _, pkg := range []string{"ui", "pub", "splicer", "client", "jtp"} {
 		files, _ := filepath.Glob(filepath.Join(*repo, pkg, "*.go"))
 		sort.Strings(files)
+		if accessPkgs[pkg] {
+			collectFields(pkg, files)
+		}
 		for _, f := range files {
 			if strings.HasSuffix(f, "_test.go") {
 				continue
@@ -222,6 +225,15 @@ func simpleArg(e ast.Expr) bool {
 }
 
 func rewrite(pkg, path string, src []byte) ([]byte, bool) {
+	// plain-memory accesses: reads and writes of struct fields through pointer variables
+	// (receivers, pointer parameters, locals initialised with &T{...}) and slice elements go
+	// through verifrt.R / verifrt.Wr, which feed the conflict detector of the scheduler. Done
+	// on the source text (identifier spans are replaced, no line is added) so that the
+	// printer never sees a mixture of positioned and unpositioned nodes.
+	nAcc := 0
+	if accessPkgs[pkg] {
+		src, nAcc = instrumentFieldAccesses(pkg, path, src)
+	}
 	fset := token.NewFileSet()
 	file, err := parser.ParseFile(fset, path, src, parser.ParseComments)
 	if err != nil {
@@ -409,6 +421,12 @@ func rewrite(pkg, path string, src []byte) ([]byte, bool) {
 		}
 	}
 
+	// (g) plain-memory accesses were routed through verifrt.R / verifrt.Wr in the source text (see above)
+	if nAcc > 0 {
+		rep.Rewritten = append(rep.Rewritten, fmt.Sprintf("%s: %d field accesses -> verifrt.R/Wr", rel, nAcc))
+		changed, needRT = true, true
+	}
+
 	if !changed {
 		return nil, false
 	}
@@ -570,4 +588,176 @@ func stateFields(file *ast.File) (map[string]bool, string, bool) {
 		}
 	}
 	return fields, mutex, isPtr
+}
+
+// ---------------------------------------------------------------- field-access instrumentation
+
+var accessPkgs = map[string]bool{"pub": true, "splicer": true}
+
+var pkgFields = map[string]map[string]bool{}
+var pkgMethods = map[string]map[string]bool{}
+
+// collectFields lists the named fields of every struct type and the names of all methods
+// declared in a package. Only selectors whose name is a field and not a method anywhere in
+// the package are instrumented (there is no type information here).
+func collectFields(pkg string, files []string) {
+	fields, methods := map[string]bool{}, map[string]bool{}
+	for _, f := range files {
+		if strings.HasSuffix(f, "_test.go") {
+			continue
+		}
+		file, err := parser.ParseFile(token.NewFileSet(), f, nil, 0)
+		if err != nil {
+			die("parse %s: %v", f, err)
+		}
+		ast.Inspect(file, func(n ast.Node) bool {
+			switch v := n.(type) {
+			case *ast.StructType:
+				for _, fl := range v.Fields.List {
+					for _, nm := range fl.Names {
+						fields[nm.Name] = true
+					}
+				}
+			case *ast.InterfaceType:
+				for _, fl := range v.Methods.List {
+					for _, nm := range fl.Names {
+						methods[nm.Name] = true
+					}
+				}
+			case *ast.FuncDecl:
+				if v.Recv != nil {
+					methods[v.Name.Name] = true
+				}
+			}
+			return true
+		})
+	}
+	pkgFields[pkg], pkgMethods[pkg] = fields, methods
+}
+
+// isPtrVar: the identifier is a variable that certainly holds a pointer.
+func isPtrVar(id *ast.Ident) bool {
+	if id.Obj == nil || id.Obj.Kind != ast.Var || id.Name == "_" {
+		return false
+	}
+	switch d := id.Obj.Decl.(type) {
+	case *ast.Field:
+		_, ok := d.Type.(*ast.StarExpr)
+		return ok
+	case *ast.ValueSpec:
+		_, ok := d.Type.(*ast.StarExpr)
+		return ok
+	case *ast.AssignStmt:
+		if d.Tok != token.DEFINE || len(d.Lhs) != len(d.Rhs) {
+			return false
+		}
+		for i, l := range d.Lhs {
+			if li, ok := l.(*ast.Ident); ok && li.Obj == id.Obj {
+				if u, ok := d.Rhs[i].(*ast.UnaryExpr); ok && u.Op == token.AND {
+					_, isLit := u.X.(*ast.CompositeLit)
+					return isLit
+				}
+			}
+		}
+	}
+	return false
+}
+
+func stripParens(e ast.Expr) ast.Expr {
+	for {
+		p, ok := e.(*ast.ParenExpr)
+		if !ok {
+			return e
+		}
+		e = p.X
+	}
+}
+
+func instrumentFieldAccesses(pkg, path string, src []byte) ([]byte, int) {
+	fset := token.NewFileSet()
+	file, err := parser.ParseFile(fset, path, src, parser.ParseComments)
+	if err != nil {
+		die("parse %s: %v", path, err)
+	}
+	rel := pkg + "/" + filepath.Base(path)
+	fields, methods := pkgFields[pkg], pkgMethods[pkg]
+	candidate := func(e ast.Expr) *ast.SelectorExpr {
+		s, ok := stripParens(e).(*ast.SelectorExpr)
+		if !ok || !fields[s.Sel.Name] || methods[s.Sel.Name] {
+			return nil
+		}
+		if ix, ok := s.X.(*ast.IndexExpr); ok {
+			// element of a slice variable, indexed by a plain variable or literal: s[i].f
+			base, ok := ix.X.(*ast.Ident)
+			if !ok || base.Obj == nil || base.Obj.Kind != ast.Var {
+				return nil
+			}
+			switch ix.Index.(type) {
+			case *ast.Ident, *ast.BasicLit:
+				return s
+			}
+			return nil
+		}
+		id, ok := s.X.(*ast.Ident)
+		if !ok || !isPtrVar(id) {
+			return nil
+		}
+		return s
+	}
+	writes := map[*ast.SelectorExpr]bool{}
+	ast.Inspect(file, func(n ast.Node) bool {
+		switch v := n.(type) {
+		case *ast.AssignStmt:
+			for _, l := range v.Lhs {
+				if s := candidate(l); s != nil {
+					writes[s] = true
+				}
+			}
+		case *ast.IncDecStmt:
+			if s := candidate(v.X); s != nil {
+				writes[s] = true
+			}
+		case *ast.RangeStmt:
+			if v.Tok == token.ASSIGN {
+				for _, e := range []ast.Expr{v.Key, v.Value} {
+					if e != nil {
+						if s := candidate(e); s != nil {
+							writes[s] = true
+						}
+					}
+				}
+			}
+		}
+		return true
+	})
+	type edit struct {
+		from, to int
+		text     string
+	}
+	var edits []edit
+	ast.Inspect(file, func(node ast.Node) bool {
+		s, ok := node.(*ast.SelectorExpr)
+		if !ok || candidate(s) == nil {
+			return true
+		}
+		from, to := fset.Position(s.X.Pos()).Offset, fset.Position(s.X.End()).Offset
+		x := string(src[from:to])
+		fn := "R"
+		if writes[s] {
+			fn = "Wr"
+		}
+		site := strconv.Quote(fmt.Sprintf("%s:%d .%s", rel, fset.Position(s.Pos()).Line, s.Sel.Name))
+		first := x
+		if _, isIndex := s.X.(*ast.IndexExpr); isIndex {
+			first = "&" + x // (&s[i]).f selects the same element, so the selector stays assignable
+		}
+		edits = append(edits, edit{from, to, fmt.Sprintf("verifrt.%s(%s, &%s.%s, %s)", fn, first, x, s.Sel.Name, site)})
+		return false
+	})
+	sort.Slice(edits, func(i, j int) bool { return edits[i].from > edits[j].from })
+	out := append([]byte{}, src...)
+	for _, e := range edits {
+		out = append(out[:e.from], append([]byte(e.text), out[e.to:]...)...)
+	}
+	return out, len(edits)
 }
